@@ -255,6 +255,8 @@ pub async fn copy_bidi(ctx: ContextRef, params: &IoParams) -> Result<(), Error> 
     let idle_timeout = ctx_lock.idle_timeout();
     let streams = ctx_lock.take_streams();
     let frames = ctx_lock.take_frames();
+    // a datagram session has no half-closed state: when either peer's frame stream ends, the peer is gone
+    let datagram_session = frames.is_some();
     let client_stat = ctx_lock.props().client_stat.clone();
     let server_stat = ctx_lock.props().server_stat.clone();
     #[cfg(feature = "metrics")]
@@ -346,10 +348,16 @@ pub async fn copy_bidi(ctx: ContextRef, params: &IoParams) -> Result<(), Error> 
             ret = (&mut copy_c2s), if c2s.is_none() => {
                 c2s = Some(ret?);
                 ctx.write().await.set_state(ContextState::ClientShutdown);
+                if datagram_session {
+                    break;
+                }
             },
             ret = (&mut copy_s2c), if s2c.is_none() => {
                 s2c = Some(ret?);
                 ctx.write().await.set_state(ContextState::ServerShutdown);
+                if datagram_session {
+                    break;
+                }
             },
             _ = interval.tick() => if server_stat.is_timeout(idle_timeout) && client_stat.is_timeout(idle_timeout){
                 return Err(err_msg("idle timeout"))
